@@ -81,6 +81,8 @@ def score(h):
     sc += 2 * after("del", "compact") + 2 * after("compact", "dt") + after("compact", "shutdown")
     sc += after("compact", "ins") + after("dt", "ct") + acts.count("shutdown")
     sc += 2 * (after("compact", "shutdown") and after("shutdown", "ins"))
+    # a refused DROP TABLE (a view selects from the table), and the drop that succeeds once a reopen forgot the view
+    sc += 2 * after("cv", "dtx") + 2 * (after("cv", "shutdown") and after("shutdown", "dt"))
     return sc
 
 
@@ -118,14 +120,21 @@ def generate(pid, tier, seed, known_devs, stmts, boots, views, nmax, names=("a",
         hot = hot[: nmax // 4]
         rest = [h for h in maximal if not is_hot(h)]
         rnd.shuffle(rest)
+        # a share for the refused DROP TABLE (rare among the maximal histories)
+        refused = [h for h in rest if any(e["a"] == "dtx" for e in h)][: max(2, nmax // 10)]
+        hot += refused
+        rest = [h for h in rest if not any(h is x for x in refused)]
         rest.sort(key=lambda h: -score(h))
         head = rest[: nmax // 2]
         tail = rest[nmax // 2:]
         rnd.shuffle(tail)
         maximal = hot + head + tail[: max(0, nmax - len(hot) - len(head))]
-    log(f"[gen] {len(hists)} printed, {total} maximal, {len(maximal)} kept")
+    nview = sum(1 for h in maximal if any(e["a"] == "cv" for e in h))
+    nref = sum(1 for h in maximal if any(e["a"] == "dtx" for e in h))
+    log(f"[gen] {len(hists)} printed, {total} maximal, {len(maximal)} kept ({nview} with a view, {nref} with a refused drop)")
     return maximal, {"gen_distinct": r["distinct"], "gen_generated": r["generated"],
-                     "histories_printed": len(hists), "histories_maximal": total}
+                     "histories_printed": len(hists), "histories_maximal": total,
+                     "histories_with_view": nview, "histories_with_refused_drop": nref}
 
 
 # ---------------------------------------------------------------- history -> SQL case
@@ -154,12 +163,11 @@ def stmt_sql(e, obs_before, pk, rnd, fat=1):
     if a == "ct":
         return f"create table {tname(e['n'])}(a int {'primary key' if pk else 'not null'}, b int)"
     if a == "cv":
-        base = sorted(n for n, v in obs_before["adb"].items() if v["k"] == "table")[0]
-        return f"create view {tname(e['n'])}(a, b) as select a, b from {tname(base)}"
+        return f"create view {tname(e['n'])}(a, b) as select a, b from {tname(e['base'])}"
     if a == "ci":
         base = sorted(n for n, v in obs_before["adb"].items() if v["k"] == "table")[0]
         return f"create index ix{rnd.randrange(10**6)} on {tname(base)} using btree (a)"
-    if a == "dt":
+    if a in ("dt", "dtx"):          # dtx: a view selects from the table, the statement is refused
         return f"drop table {tname(e['n'])}"
     if a == "ins":
         ks = [k for r in e["rows"] for k in phys(r, fat)]
@@ -299,7 +307,7 @@ def judge_history_inner(v, case, plan, res, names, label, fired):
             return True
 
         if kind == "stmt":
-            want_ok = not obs["err"]
+            want_ok = not obs["err"] and e["a"] != "dtx"
             if r["ok"] != want_ok:
                 # a deviation may make the faithful model fail where the ideal one succeeds
                 v.violation({"label": label, "case": case, "at": e, "result": r},
